@@ -48,6 +48,7 @@ let runners : (string * (z list -> z list)) list = [
   ("queue", run_queue);
   ("header", run_header);
   ("rf24", run_rf24);
+  ("net", run_net);
 ]
 
 (* ---------- the world server: one mutable world shared by the SPI shims of a run ---------- *)
